@@ -130,6 +130,8 @@ type sliceAppend struct {
 	Tail []SeqElem
 	Blk  *ssa.BasicBlock
 	Ins  ssa.Instruction
+	Real *ssa.Call // the append itself (in fn, or in the helper that fn calls at Ins)
+	Call ssa.CallInstruction // the call of fn through which a helper's append is reached (nil for fn's own)
 }
 
 func sliceAppends(P *Program, fn *ssa.Function) []sliceAppend {
@@ -140,9 +142,10 @@ func sliceAppends(P *Program, fn *ssa.Function) []sliceAppend {
 			if !ok || !isCallTo(c, "builtin:append") {
 				return
 			}
-			a := sliceAppend{Dst: desc(callArgs(c)[0]), Src: desc(callArgs(c)[1]), Blk: c.Block(), Ins: c}
+			a := sliceAppend{Dst: desc(callArgs(c)[0]), Src: desc(callArgs(c)[1]), Blk: c.Block(), Ins: c, Real: c}
 			if at != nil {
 				a.Blk, a.Ins = at.Block(), at
+				a.Call, _ = at.(ssa.CallInstruction)
 			}
 			if tail, ok := seqTail(callArgs(c)[1], 0, map[ssa.Value]bool{}); ok {
 				a.Tail = tail
@@ -153,8 +156,8 @@ func sliceAppends(P *Program, fn *ssa.Function) []sliceAppend {
 	collect(fn, nil)
 	for _, c := range callsIn(fn) {
 		g := staticCallee(c)
-		if g == nil || g == fn || !inModuleFn(g) || g.Blocks == nil || g.Parent() != nil || (g.Object() != nil && g.Object().Exported()) || len(g.Blocks) > 3 {
-			continue
+		if g == nil || g == fn || !inModuleFn(g) || g.Blocks == nil || g.Parent() != nil || (g.Object() != nil && g.Object().Exported()) || (len(g.Blocks) > 3 && !newHelper(g)) {
+			continue // (small helpers, and helpers of any size that the reference tree does not have: code moved out of fn)
 		}
 		cc := c
 		bindCall(cc, g, func() { collect(g, cc) })
@@ -383,13 +386,17 @@ func statementFilingRule(P *Program, R *Report) {
 	key := "rangekey(arg#2)"
 	var app *sliceAppend
 	for _, a := range sliceAppends(P, fn) {
-		if a.Dst == nbD+".rpStructures["+key+"]" {
+		if a.Dst == nbD+".rpStructures["+key+"]" || a.Dst == "<gabi.DisclosureProofBuilder>.rpStructures["+key+"]" {
 			aa := a
 			app = &aa
 		}
 	}
 	if app == nil {
-		R.bad(rule, kCredBuilder+":filed", "structures are filed under the statement's attribute index", "no append to rpStructures[index]", P.Pos(fn.Pos()))
+		var seenD []string
+		for _, a := range sliceAppends(P, fn) {
+			seenD = append(seenD, a.Dst)
+		}
+		R.bad(rule, kCredBuilder+":filed", "structures are filed under the statement's attribute index", "no append to rpStructures[index]; appends seen: "+strings.Join(seenD, " ; "), P.Pos(fn.Pos()))
 		return
 	}
 	tail := app.Tail
@@ -400,8 +407,21 @@ func statementFilingRule(P *Program, R *Report) {
 	// no requested statement is left out: a builder is returned only if every iteration of the walk over the requested
 	// statements (outer: attribute indices, inner: that attribute's statements) reached the filing - an iteration that
 	// is skipped (`continue`) yields a proof that verifies and silently lacks the inequality
-	appIns, _ := app.Ins.(ssa.Instruction)
+	// (the walk may have been moved, whole, into an unexported helper of the builder: it is examined there, with the
+	// helper's own "no error" exits as the accepting ones)
+	var appIns ssa.Instruction = app.Real
+	wfn, wacc := fn, AcceptNilErr(1)
+	if app.Real != nil && app.Real.Parent() != fn {
+		wfn = app.Real.Parent()
+		res := wfn.Signature.Results()
+		for k := 0; k < res.Len(); k++ {
+			if isErrorType(res.At(k).Type()) {
+				wacc = AcceptNilErr(k)
+			}
+		}
+	}
 	if appIns != nil {
+		fn := wfn
 		inner := innermostLoopOf(appIns.Block())
 		okAll, why := inner != nil, "the filing is not inside a loop"
 		for l := inner; l != nil && okAll; {
@@ -410,7 +430,7 @@ func statementFilingRule(P *Program, R *Report) {
 				// an outer iteration passes the obligation by entering the inner walk (whose every iteration files)
 				q = &MustPass{P: P, NoInterproc: true, Instr: func(_ *ssa.Function, i ssa.Instruction) bool { return i.Block() == inner.Header }}
 			}
-			if r := q.ForAllBody(fn, l, AcceptNilErr(1), false); !r.Holds {
+			if r := q.ForAllBody(fn, l, wacc, false); !r.Holds {
 				okAll, why = false, r.Path
 			}
 			var outer *Loop
@@ -424,11 +444,18 @@ func statementFilingRule(P *Program, R *Report) {
 		}
 		R.decide(rule, kCredBuilder+":every-statement", "a builder is returned only if every requested statement was filed (no statement is skipped)", okAll, why, P.Pos(appIns.Pos()))
 	}
-	r := (&MustPass{P: P, Match: func(a Atom) bool {
+	hidden := &MustPass{P: P, Match: func(a Atom) bool {
 		// the index is not contained in the disclosed list (tested here or in a helper such as isUndisclosedAttribute)
 		c, okc := callAtom(a, False, "slices.Contains")
 		return okc && desc(callArgs(c)[0]) == "arg#1" && desc(callArgs(c)[1]) == key
-	}}).MustReach(fn, app.Ins)
+	}}
+	var r mpResult
+	if app.Call != nil && app.Real != nil && app.Real.Parent() != fn {
+		// inside the helper the walk was moved to, with its parameters bound to the constructor's arguments
+		bindCall(app.Call, app.Real.Parent(), func() { r = hidden.MustReach(app.Real.Parent(), app.Real) })
+	} else {
+		r = hidden.MustReach(fn, app.Ins)
+	}
 	R.decide(rule, kCredBuilder+":hidden-only", "a range statement is accepted only for an attribute that is not disclosed", r.Holds, r.Path, P.Pos(app.Ins.Pos()))
 	if iu := P.Func("gabi.isUndisclosedAttribute"); iu != nil {
 		okc := false
